@@ -45,13 +45,14 @@ Proof.
   destruct (String.eqb s1 name); auto. rewrite on_iface_full. auto.
 Qed.
 
-Lemma do_full_resync_failed_full : forall cfg p w w', do_full_resync cfg p w = (true, w') -> s_full (w_st w') = s_full (w_st w).
+Lemma do_full_resync_failed_full : forall cfg p w w', plan_simple p = true -> do_full_resync cfg p w = (true, w') -> s_full (w_st w') = s_full (w_st w).
 Proof.
-  intros cfg p w w' H. unfold do_full_resync in H.
+  intros cfg p w w' PS H. unfold do_full_resync in H.
   destruct (nl_call p NLinkList w) as [f w1] eqn:E1. apply nl_call_frame in E1. destruct E1 as [A1 A2].
   destruct f.
   { injection H as <-. rewrite A1. auto. }
   remember (refresh_all cfg (e_now (w_env w)) (e_links (w_env w1)) (w_st w1)) as s1.
+  rewrite (full_list_simple cfg p _ PS) in H.
   destruct (list_retry p NRouteListAll 5 (wst w1 s1)) as [failed w2] eqn:E2.
   apply list_retry_frame in E2. simpl in E2. destruct E2 as [B1 B2].
   destruct failed.
@@ -61,21 +62,22 @@ Qed.
 
 (* an attempt with the full resync pending either completes the resync (tracker sound from then on) or leaves it pending *)
 Lemma attempt_full_sub : forall cfg p w b w',
+  plan_simple p = true ->
   NoDup (keys (e_routes (w_env w))) -> s_full (w_st w) = true ->
   attempt cfg p w = (b, w') ->
   (Sub cfg (w_st w') (w_env w') \/ s_full (w_st w') = true) /\
   (b = false -> s_rescan (w_st w') = [] -> forall k d, desk w' k = Some d -> dpk w' k = Some d /\ tbl cfg (w_env w') k = Some d).
 Proof.
-  intros cfg p w b w' ND FULL H. unfold attempt in H.
+  intros cfg p w b w' PS ND FULL H. unfold attempt in H.
   destruct (handle p w) as [ok w1] eqn:Eh. apply handle_frame in Eh. destruct Eh as [H1 H2].
   destruct ok; simpl in H.
   2:{ injection H as <- <-. simpl. rewrite H1. split; [right; auto|discriminate]. }
   rewrite H1, FULL in H.
   destruct (do_full_resync cfg p w1) as [e1 w2] eqn:Ef.
   destruct e1.
-  { injection H as <- <-. simpl. apply do_full_resync_failed_full in Ef. split; [right; congruence|discriminate]. }
+  { injection H as <- <-. simpl. apply do_full_resync_failed_full in Ef; [|exact PS]. split; [right; congruence|discriminate]. }
   assert (Sub cfg (w_st w2) (w_env w2)) as S2.
-  { apply full_resync_ok in Ef; [|rewrite H2; auto]. destruct Ef as [_ [_ [_ [X _]]]]. exact X. }
+  { apply full_resync_ok in Ef; [|exact PS|rewrite H2; auto]. destruct Ef as [_ [_ [_ [X _]]]]. exact X. }
   destruct (apply_updates cfg p w2) as [e2 w3] eqn:Ea.
   pose proof (apply_updates_sub _ _ _ _ _ Ea S2) as S3.
   destruct e2; injection H as <- <-; simpl.
@@ -89,23 +91,24 @@ Proof.
 Qed.
 
 Lemma apply_converges_full : forall cfg p s e s' e',
+  plan_simple p = true ->
   NoDup (keys (e_routes e)) -> s_full s = true ->
   apply cfg p s e = (false, s', e') ->
   forall k d, lookup rkey_eqb (s_desired s') k = Some d -> tbl cfg e' k = Some d.
 Proof.
-  intros cfg p s e s' e' ND FULL H. unfold apply in H.
+  intros cfg p s e s' e' PS ND FULL H. unfold apply in H.
   set (w0 := {| w_st := s; w_env := e; w_cnt := []; w_cached := s_cached s; w_reopen := s_reopen s |}) in *.
   destruct (attempt cfg p w0) as [err0 w1] eqn:A0.
-  destruct (attempt_full_sub cfg p w0 err0 w1 ND FULL A0) as [D0 G0].
-  pose proof (proj2 (attempt_other _ _ _ _ _ A0) ND) as ND1.
+  destruct (attempt_full_sub cfg p w0 err0 w1 PS ND FULL A0) as [D0 G0].
+  pose proof (proj2 (attempt_other _ _ _ _ _ PS A0) ND) as ND1.
   destruct (err0 || negb (match s_rescan (w_st w1) with [] => true | _ => false end)) eqn:C.
   - destruct (attempt cfg p w1) as [err1 w2] eqn:A1.
     destruct (s_rescan (w_st w2)) eqn:R2; [|discriminate].
     injection H as -> <- <-.
     destruct D0 as [S1|F1].
-    + destruct (attempt_sub cfg p w1 false w2 ND1 A1 S1) as [S2 G2].
+    + destruct (attempt_sub cfg p w1 false w2 PS ND1 A1 S1) as [S2 G2].
       intros k d Hd. apply S2. apply (G2 eq_refl R2 k d). exact Hd.
-    + destruct (attempt_full_sub cfg p w1 false w2 ND1 F1 A1) as [_ G1].
+    + destruct (attempt_full_sub cfg p w1 false w2 PS ND1 F1 A1) as [_ G1].
       intros k d Hd. apply (G1 eq_refl R2 k d). exact Hd.
   - apply orb_false_iff in C. destruct C as [-> C].
     destruct (s_rescan (w_st w1)) eqn:R1; [|discriminate].
